@@ -1377,7 +1377,7 @@ example : uuidParse "{67e5504410b1426f9247bb680e5fe0c8}".toList = none := by dec
 example : uuidParse "67e55044-10b1-426f-9247-bb680e5fe0cg".toList = none := by decide
 example : uuidParse "".toList = none := by decide
 
-/-- numbers: spellings of one value, rejected spellings, and the rounding zone that is outside the model (F23) -/
+/-- numbers: spellings of one value, rejected spellings, and the rounding zone that is outside the model (F26) -/
 example : decOfText "1.50".toList = .ok ⟨false, 150, 2⟩ := by decide
 example : decOfText "150e-2".toList = .ok ⟨false, 150, 2⟩ := by decide
 example : decOfText "+1_5.0e-1".toList = .ok ⟨false, 150, 2⟩ := by decide
